@@ -4,6 +4,10 @@ from core import Eval
 import rules_err
 import rules_stats
 import rules_svd
+import rules_problem as rp
+import rules_problem2 as rp2
+import rules_stats2 as rs2
+import rules_mbuilder as rmb
 
 BOTH = ("default", "parallel")
 
@@ -56,4 +60,163 @@ PROPS["C08"] = {
     "explanation": "Every SVD constructor call in local code receives a matrix that was checked all-finite after its last arithmetic "
                    "(qualifier dataflow over presence conditions), both LeastSquaresProblem impls.",
     "not_decided": ["termination/panic-freedom inside nalgebra and levenberg-marquardt on finite input"],
+}
+
+PROPS["C08"]["rules"] += []
+
+PROPS["C01"] = {
+    "configs": BOTH,
+    "rules": [
+        ("R-COEF-SOLVE", rp.rule_coef_solve, {}),
+        ("R-DATA-WEIGHT-ONCE", rp2.rule_data_weight_once, {}),
+        ("R-ROW-SCALING", rp2.rule_row_scaling, {}),
+        ("R-SIBLING", rp2.rule_sibling, {"configs": ("parallel",)}),
+    ],
+    "explanation": "Provenance of the coefficient solve decided on the term reconstructed from MIR for both LeastSquaresProblem impls: "
+                   "cached coefficients = SVD::solve(svd(W*Model::eval(model after Model::set_params), true, true), weighted data role, epsilon role by pure copy); "
+                   "build() weights the observations exactly once with the same weights it stores, epsilon = |given| or machine epsilon; `&Weights*M` is the identity for Unit and "
+                   "per-column component_mul_assign(diagonal) for Diagonal.",
+    "not_decided": ["that nalgebra's SVD/solve returns the minimum-norm minimiser", "finiteness of values", "numerical linearity in y"],
+}
+PROPS["C02"] = {
+    "configs": BOTH,
+    "rules": [
+        ("R-RESID-TERM", rp.rule_resid_term, {}),
+        ("R-PURE-PROJECTION", rp.rule_pure_projection, {}),
+        ("R-VEC-COLMAJOR", rp.rule_vec_colmajor, {}),
+        ("R-BESTFIT", rp.rule_bestfit, {}),
+        ("R-WHO-WRITES", rp2.rule_who_writes, {}),
+        ("R-DATA-WEIGHT-ONCE", rp2.rule_data_weight_once, {}),
+        ("R-COEF-SOLVE", rp.rule_coef_solve, {}),
+    ],
+    "explanation": "One-state rules: cached residuals = Y_w - (W*Phi)*C built from the same W*Phi and C term nodes that feed the SVD and the coefficient role; "
+                   "residuals() is the column-major flattening of that matrix; accessors are pure projections of their roles; best_fit = eval(model)*C; "
+                   "who-may-write table over all bodies (fields private, cache replaced only wholesale in set_params, model borrowed mutably only for Model::set_params); "
+                   "eval follows Model::set_params on every path that stores a cache.",
+    "not_decided": ["numerical equality for models whose eval is not pure (trait contract)"],
+}
+PROPS["C03"] = {
+    "configs": BOTH,
+    "rules": [
+        ("R-KAUFMAN-COL", rp2.rule_kaufman_col, {}),
+        ("R-JAC-ABSENT", rules_err.rule_jac_absent, {}),
+        ("R-VEC-COLMAJOR", rp.rule_vec_colmajor, {}),
+    ],
+    "explanation": "Algebraic normal form of the value written to Jacobian column k equals +U*U^T*X - X with X = W*eval_partial_deriv(model,k)*C, U the cached left singular vectors, "
+                   "k the enumerate index of the column; allocation (output_len*ncols(Y_w)) x parameter_count; same flattening as the residuals; Some(J) only through the Ok edge of the collected column results.",
+    "not_decided": ["that U*U^T is the projector onto range(W*Phi) (full-rank hypothesis, nalgebra)", "numerical exactness of the gradient"],
+}
+PROPS["C04"] = {
+    "configs": BOTH,
+    "rules": [
+        ("R-FIT-MAP", rs2.rule_fit_map, {}),
+        ("R-INTO-IDENTITY", rp2.rule_into_identity, {}),
+        ("R-NO-HISTORY", rp2.rule_no_history, {}),
+    ],
+    "explanation": "fit(): minimize is called on the caller-configured solver with the caller's problem; Ok and Err carry the same FitResult built from the optimizer's final problem "
+                   "(all five roles moved unchanged) and report; Ok is reachable only on the successful edge of TerminationReason::was_successful and Err only on the other; "
+                   "every path through set_params replaces the whole cache, so the optimizer's last update leaves a coherent state.",
+    "not_decided": ["objective never larger than at the start, evaluation budget, accepted-point re-application: behaviour of levenberg-marquardt 0.14 (trusted)"],
+}
+PROPS["C06"] = {
+    "configs": BOTH,
+    "rules": [
+        ("R-WEIGHT-SITES", rp2.rule_weight_sites, {}),
+        ("R-ROW-SCALING", rp2.rule_row_scaling, {}),
+        ("R-DATA-WEIGHT-ONCE", rp2.rule_data_weight_once, {}),
+        ("R-CTOR-SIBLINGS", rp2.rule_ctor_siblings, {}),
+        ("R-KAUFMAN-COL", rp2.rule_kaufman_col, {}),
+        ("R-COEF-SOLVE", rp.rule_coef_solve, {}),
+    ],
+    "explanation": "Every multiplication by weights in the crate uses the single weights role (problem / builder / statistics argument) and is applied to an unweighted quantity exactly once "
+                   "(Y at build, Phi at every update, each D_k in the Jacobian, J and Phi*c in the statistics); default weights are Unit; Unit is the identity; Diagonal is elementwise row scaling.",
+    "not_decided": ["equivalence with the row-scaled problem along a whole fit (numerics)", "zero/negative weights beyond 'pure elementwise product'"],
+}
+PROPS["C07"] = {
+    "configs": BOTH,
+    "rules": [
+        ("R-NO-CONST-PARAM-USE", rp2.rule_no_const_param_use, {}),
+        ("R-OBS-RESHAPE", rp2.rule_obs_reshape, {}),
+        ("R-VEC-COLMAJOR", rp.rule_vec_colmajor, {}),
+        ("R-KAUFMAN-COL", rp2.rule_kaufman_col, {}),
+        ("R-RESID-TERM", rp.rule_resid_term, {}),
+        ("R-PURE-PROJECTION", rp.rule_pure_projection, {}),
+    ],
+    "explanation": "Single- and multi-right-hand-side problems share one code path (no body uses the const generics MRHS/PAR as a value); single-rhs observations are only reshaped to N x 1; "
+                   "coefficients, residuals and Jacobian columns are products with the data/coefficient matrix on the right (columns never mixed) and residuals and every Jacobian column use the same column-major flattening, so block s belongs to column s.",
+    "not_decided": ["permutation invariance of the fitted alpha up to optimizer accuracy", "column-wise behaviour of nalgebra's solve/products (signature table)"],
+}
+PROPS["C10"] = {
+    "configs": BOTH,
+    "rules": [
+        ("R-NO-HISTORY", rp2.rule_no_history, {}),
+        ("R-WHO-WRITES", rp2.rule_who_writes, {}),
+        ("R-DEF-INIT", rp2.rule_def_init, {}),
+        ("R-JAC-ABSENT", rules_err.rule_jac_absent, {}),
+    ],
+    "explanation": "Cache written only as a whole value on every path through set_params, built from terms of the same invocation with no read of the previous cache; no interior mutability in state types; "
+                   "each uninitialised result matrix (exactly the reviewed unsafe sites) is proven fully overwritten column by column before any success return.",
+    "not_decided": ["value equality with a freshly built problem (follows from the decided clauses plus purity of the model - trait contract)"],
+}
+PROPS["C11"] = {
+    "configs": ("parallel",),
+    "rules": [
+        ("R-SIBLING", rp2.rule_sibling, {}),
+        ("R-PAR-PURE", rp2.rule_par_pure, {}),
+        ("R-INTO-IDENTITY", rp2.rule_into_identity, {}),
+        ("R-CTOR-SIBLINGS", rp2.rule_ctor_siblings, {}),
+        ("R-NO-CONST-PARAM-USE", rp2.rule_no_const_param_use, {}),
+    ],
+    "explanation": "Sibling agreement of the parallel LeastSquaresProblem impl with the sequential one (equal canonical sink terms for set_params/params/residuals/jacobian and equal per-column effect sequences modulo the rayon<->std iterator mapping); "
+                   "rayon is used only as par_column_iter_mut().enumerate().map(c).collect() with a closure capturing by shared reference, no interior mutability/sync/IO, unit payload (no schedule-dependent reduction); into_sequential moves all roles unchanged; parallel constructors equal the sequential ones.",
+    "not_decided": ["bit-identical behaviour of nalgebra/rayon internals (trusted)", "performance"],
+}
+PROPS["C13"] = {
+    "configs": BOTH,
+    "rules": [
+        ("R-MODEL-JAC", rs2.rule_model_jac, {}),
+        ("R-COVARIANCE", rs2.rule_covariance, {}),
+        ("R-VAR-SLICES", rs2.rule_var_slices, {}),
+        ("R-CORRELATION", rs2.rule_correlation, {}),
+    ],
+    "explanation": "Model-function Jacobian J = [eval | (d_idx Phi * c)_idx] with the left block copied to columns idx and the right block to idx+|left|; covariance normal form chi2_red * inv((W*J)^T (W*J)); "
+                   "variance accessors slice diag(cov) at [0,|B|) and [|B|,|B|+|P|) with the count roles initialised from the matching model counts; correlation element (i,j) = cov(i,j)/sqrt(cov(i,i)*cov(j,j)) over the full square.",
+    "not_decided": ["symmetry / non-negativity / |corr| <= 1 (numerics of try_inverse)"],
+}
+PROPS["C14"] = {
+    "configs": BOTH,
+    "rules": [
+        ("R-BAND", rs2.rule_band, {}),
+        ("R-DOF-GUARD", _dof_guard, {}),
+        ("R-MODEL-JAC", rs2.rule_model_jac, {}),
+    ],
+    "explanation": "confidence_band_radius continues past its assertion only if p is finite, > 0 and < 1 (else the documented panic); quantile level is the affine form (p+1)/2; degrees of freedom handed to the Student-t quantile are the stored N-(M+P) by pure conversion; "
+                   "radius_i = t * sigma_i in lock-step over the samples; sigma_i = sqrt(j_i^T Cov j_i) over the rows of the unweighted model-function Jacobian.",
+    "not_decided": ["monotonicity in p, finiteness/non-negativity of entries, correctness of distrs' quantile"],
+}
+PROPS["C15"] = {
+    "configs": ("default",),
+    "rules": [
+        ("R-TYPESTATE", rmb.rule_typestate, {}),
+        ("R-FN-RESULT-STICKY", rmb.rule_fn_result_sticky, {}),
+        ("R-BUILD-GUARDS", rmb.rule_build_guards, {}),
+    ],
+    "explanation": "Typestate transition table of SeparableModelBuilder extracted per match arm (path-pruned term evaluation, self-delegation resolved through the From impls) equals the reviewed table: errors are sticky with payload unchanged, "
+                   "derivatives attach only directly after a function, every other call first finalises the pending function; the function builder's recorded result is only ever overwritten with Err; "
+                   "each ModelBuildError is constructed only under its defining predicate and the model is built only after all validations passed.",
+    "not_decided": ["the full iff over all call sequences (language membership over run-time data)", "which of several simultaneous defects is reported"],
+}
+PROPS["C18"] = {
+    "configs": BOTH,
+    "rules": [
+        ("R-PROBLEM-BUILD-TABLE", rp2.rule_problem_build_table, {}),
+        ("R-INITIAL-SET-PARAMS", rp2.rule_initial_set_params, {}),
+        ("R-SETTER-FRAME", rp2.rule_setter_frame, {}),
+        ("R-CTOR-SIBLINGS", rp2.rule_ctor_siblings, {}),
+        ("R-DATA-WEIGHT-ONCE", rp2.rule_data_weight_once, {}),
+        ("R-OBS-RESHAPE", rp2.rule_obs_reshape, {}),
+    ],
+    "explanation": "build() decision table by edge dominance: each LevMarBuilderError only under its own condition and Ok only after data present, non-zero lengths, equal row counts and fitting weights; "
+                   "Ok(problem) passes LeastSquaresProblem::set_params(&mut problem, &model.params()) after the struct is built with an empty cache; each setter writes exactly its own field (frame rule), so call order only matters through last-write-wins; all constructors build the same empty builder; epsilon stored as |eps|.",
+    "not_decided": ["'already exposes residuals when the model evaluates there' relies on C01/C02/C09"],
 }
